@@ -32,7 +32,7 @@ Put(f, x, v) == [y \in (DOMAIN f) \cup {x} |-> IF y = x THEN v ELSE f[y]]
 RL(p) == p.L \div Gcd(p.L, p.M)
 RM(p) == p.M \div Gcd(p.L, p.M)
 IsMulti(p) == p.proc \in {"decim", "interp", "rate", "resampler"}
-Bypass(p) == IsMulti(p) /\ RL(p) = 1 /\ RM(p) = 1
+Bypass(p) == p.proc = "resampler" /\ RL(p) = 1 /\ RM(p) = 1    \* only the wrapper passes data through; the classes filter at 1:1 too
 
 Gran(p) == IF IsMulti(p) THEN RM(p) ELSE 1
 Produced(p, n) ==
@@ -142,6 +142,7 @@ TResample ==
     /\ Ev.outlen = (IF Ev.p = Ev.q THEN Ev.len ELSE ResampleLen(Ev.len, Ev.p, Ev.q))
     /\ (Ev.p = Ev.q) => Ev.same = TRUE              \* resample(x, p, p) returns x itself
     /\ Ev.finite = TRUE
+    /\ Ev.hist = TRUE                               \* a function of its arguments, not of earlier calls
     /\ (Ev.probe = TRUE) => (Ev.shift >= -1 /\ Ev.shift <= 1)      \* aligned to within one output sample
     /\ inst' = inst
 
